@@ -80,6 +80,10 @@ func (c13) Gen(r *rand.Rand, tier string, idx int) *core.Plan {
 		}
 	}
 	p.Ops = append(p.Ops, core.Op{Kind: "load", S: []string{validType(), core.Pick(r, "s1", "s2", ".", "with.dot", "..")}})
+	if r.IntN(3) == 0 {
+		p.World["cancel"] = int64(1 + r.IntN(60))
+	}
+	p.World["rival"] = int64(r.IntN(3) / 2)
 	switch r.IntN(10) {
 	case 0, 1:
 		p.Faults = append(p.Faults, rt.Fault{Task: 0, Op: core.Pick(r, "lstat", "readdir"), Nth: r.IntN(4), Kind: core.Pick(r, "EIO", "EACCES")})
@@ -182,13 +186,32 @@ func (l c13) Exec(env *core.Env) *core.Result {
 	os.MkdirAll(elsewhere, 0755)
 	os.WriteFile(filepath.Join(elsewhere, "root.pem"), world.PEM(ca.Cert), 0644)
 
-	sim := core.NewSim(env, nil, 4000)
+	// a load may run under a context that ends at its n-th file-system operation (armed >= 0: operations to go)
+	armed := -1
+	var disarm context.CancelFunc
+	var loader *rt.Task
+	gate := &rivalGate{}
+	sim := core.NewSim(env, func(t *rt.Task, op rt.Op, fault string) {
+		if op.Kind != "yield" {
+			gate.hold() // (only ever holds the rival loader, at its first file-system operation)
+		}
+		if armed < 0 || op.Kind == "yield" || t != loader {
+			return
+		}
+		if armed == 0 && disarm != nil {
+			disarm()
+			disarm = nil
+		}
+		armed--
+	}, 4000)
 	defer func() { rt.Cur = nil }()
 	var trace []map[string]any
 	var task *rt.Task
 	task = sim.Go("operator+loader", func() {
+		loader = task
 		ts := truststore.NewX509TrustStore(dir.NewSysFS(root))
 		ctx := context.Background()
+		loadNo := 0
 		for _, op := range p.Ops {
 			rt.Yield("op")
 			storeDir := filepath.Join(x, op.Str(0), op.Str(1))
@@ -262,7 +285,31 @@ func (l c13) Exec(env *core.Env) *core.Result {
 				typ, name := op.Str(0), op.Str(1)
 				want, why := c13Expect(root, typ, name)
 				before := task.FaultsSeen
-				got, err := ts.GetCertificates(ctx, truststore.Type(typ), name)
+				lctx := ctx
+				if p.W("cancel") > 0 && int64(loadNo)%3 == p.W("cancel")%3 {
+					// the caller's context ends somewhere inside this load: it fails as a whole or returns everything
+					var cancel context.CancelFunc
+					lctx, cancel = context.WithCancel(ctx)
+					armed, disarm = int((p.W("cancel")/3+int64(loadNo))%9), cancel
+					res.Probe("load_under_a_context_that_ends_midway")
+				}
+				loadNo++
+				var got []*x509.Certificate
+				var err error
+				if other := map[string]string{"ca": "tsa", "tsa": "signingAuthority", "signingAuthority": "ca"}[typ]; p.W("rival") == 1 && other != "" && loadNo%2 == 0 {
+					// another goroutine of the host loads the store of the same NAME and another type from the same
+					// trust store object, and is already inside its load when this one begins
+					concurrently(sim, gate, func() { ts.GetCertificates(ctx, truststore.Type(other), name) },
+						func() { got, err = ts.GetCertificates(lctx, truststore.Type(typ), name) })
+					res.Probe("load_while_a_load_of_the_same_name_and_another_type_was_in_flight")
+				} else {
+					got, err = ts.GetCertificates(lctx, truststore.Type(typ), name)
+				}
+				armed = -1
+				if disarm != nil {
+					disarm() // (never reached its operation: release the context's resources)
+					disarm = nil
+				}
 				faulted := task.FaultsSeen != before
 				verdict := "ok"
 				if err != nil {
